@@ -214,6 +214,7 @@ package bt
 // sizes: abstract here (tied to the serialised length under C11)
 //@ func bt.(*Tx).EstimateSizeWithTypes
 //@   trusted "abstract size functions est_std/est_data; bounded by 2^41"
+//@   ensures (distinct err ErrInsufficientFunds)
 //@   ensures (=> (= err nil) (and (not (nil? result)) (fresh result) (= (. result TotalStdBytes) (old (spec.est_std tx))) (= (. result TotalDataBytes) (old (spec.est_data tx))) (<= 0 (old (spec.est_std tx))) (<= (old (spec.est_std tx)) 2199023255552) (<= 0 (old (spec.est_data tx))) (<= (old (spec.est_data tx)) 2199023255552)))
 //@   assigns
 
@@ -388,6 +389,7 @@ package bt
 //@   requires (spec.inputs_nonnil tx) (spec.outputs_nonnil tx)
 //@   requires (=> (not (nil? fees)) (spec.wf_quote fees))
 //@   ensures[C12.deficit] (=> (= err nil) (old (spec.deficit_is tx fees r0)))
+//@   ensures[C12.deficit_error_kind] (distinct err ErrInsufficientFunds)
 
 // ---- wire serialisation (C01) ----
 //@ func bt.(*Input).Bytes
@@ -601,23 +603,29 @@ package bt
 // funded, and to return no nil entries. It must only ever be called with a positive deficit (obligation at each call).
 //@ sig utxogetter "func(ctx context.Context, deficit uint64) ([]*bt.UTXO, error)"
 //@   opt params ctx deficit
-//@   assigns (key "$s:g:supplied")
+//@   assigns (key "$s:g:supplied") (key "$s:g:exhausted")
 //@   requires (> deficit 0)
+//@   ensures (= (ghost exhausted) (ite (and (not (= err nil)) (err_is err ErrNoUTXO)) 1 (old (ghost exhausted))))
+// assumption: a supplier does not itself hand back the library's ErrInsufficientFunds value
+//@   ensures (distinct err ErrInsufficientFunds)
 //@   ensures (=> (= err nil) (and (= (ghost supplied) (+ (old (ghost supplied)) (len r0))) (forall ((j Int)) (=> (and (<= 0 j) (< j (len r0))) (and (not (nil? (at r0 j))) (= (at r0 j) (utxo_hist (+ (old (ghost supplied)) j))))))))
 //@   ensures (=> (not (= err nil)) (= (ghost supplied) (old (ghost supplied))))
 //@ func bt.(*Tx).Fund
-//@   opt forall-patterns 1
+//@   opt index-fn 1
 //@   requires (spec.inputs_nonnil tx) (spec.outputs_nonnil tx) (not (nil? next))
 //@   requires (forall ((k Int)) (=> (and (<= 0 k) (< k (len (. tx Inputs)))) (allocated (at (. tx Inputs) k))))
 //@   requires (=> (not (nil? fq)) (spec.wf_quote fq))
 //@   ensures[C12.outputs_untouched] (= (. tx Outputs) (old (. tx Outputs)))
 //@   ensures[C12.inputs_kept] (and (>= (len (. tx Inputs)) (old (len (. tx Inputs)))) (forall ((k Int)) (=> (and (<= 0 k) (< k (old (len (. tx Inputs))))) (= (at (. tx Inputs) k) (old (at (. tx Inputs) k))))))
+//@   requires (= (ghost exhausted) 0)
 //@   ensures[C12.covered] (=> (= err nil) (spec.deficit_is tx fq 0))
+//@   ensures[C12.insufficient_only_after_exhaustion] (=> (= err ErrInsufficientFunds) (= (ghost exhausted) 1))
 //@   ensures[C12.inputs_from_supplier] (=> (or (= err nil) (= err ErrInsufficientFunds)) (and (= (len (. tx Inputs)) (+ (old (len (. tx Inputs))) (- (ghost supplied) (old (ghost supplied))))) (forall ((k Int)) (=> (and (<= (old (len (. tx Inputs))) k) (< k (len (. tx Inputs)))) (spec.input_of_utxo (at (. tx Inputs) k) (cast *bt.UTXO (utxo_hist (+ (old (ghost supplied)) (- k (old (len (. tx Inputs))))))))))))
 //@   loop 0 invariant (and (spec.inputs_nonnil tx) (spec.outputs_nonnil tx) (= (. tx Outputs) (old (. tx Outputs))) (>= (len (. tx Inputs)) (old (len (. tx Inputs)))))
 //@   loop 0 invariant (forall ((k Int)) (=> (and (<= 0 k) (< k (old (len (. tx Inputs))))) (= (at (. tx Inputs) k) (old (at (. tx Inputs) k)))))
 //@   loop 0 invariant (spec.deficit_is tx fq deficit)
 //@   loop 0 invariant (>= (ghost supplied) (old (ghost supplied)))
+//@   loop 0 invariant (= (ghost exhausted) 0)
 //@   loop 0 invariant (= (len (. tx Inputs)) (+ (old (len (. tx Inputs))) (- (ghost supplied) (old (ghost supplied)))))
 //@   loop 0 invariant (forall ((k Int)) (=> (and (<= (old (len (. tx Inputs))) k) (< k (len (. tx Inputs)))) (spec.input_of_utxo (at (. tx Inputs) k) (cast *bt.UTXO (utxo_hist (+ (old (ghost supplied)) (- k (old (len (. tx Inputs))))))))))
 //@   loop 0 invariant (forall ((k Int)) (=> (and (<= 0 k) (< k (len (. tx Inputs)))) (allocated (at (. tx Inputs) k))))
@@ -688,3 +696,14 @@ package bt
 // ---- C16: the hex shortcut of Tx.UnmarshalJSON installs every field of the parsed transaction ----
 //@ func bt.(*Tx).UnmarshalJSON
 //@   lemma (=> (= err nil) (and (= (. tx LockTime) (. t LockTime)) (= (. tx Version) (. t Version)) (= (. tx Inputs) (. t Inputs)) (= (. tx Outputs) (. t Outputs))))
+
+// none of the estimation functions reports the funding error (used by Tx.Fund: an insufficient-funds error means the
+// supplier ran dry, C12)
+//@ func bt.(*Tx).EstimateFeesPaid
+//@   ensures[C12.estimate_error_kind] (distinct err ErrInsufficientFunds)
+//@ func bt.(*Tx).estimatedFinalTx
+//@   ensures[C12.final_error_kind] (distinct err ErrInsufficientFunds)
+//@ func bt.(*Tx).feesPaid
+//@   ensures[C12.fees_error_kind] (distinct err ErrInsufficientFunds)
+//@ func bt.(*FeeQuote).Fee
+//@   ensures[C12.fee_error_kind] (distinct err ErrInsufficientFunds)
